@@ -72,7 +72,7 @@ theorem congR_stores (cx : Ctx) (imms : List String) {a b : World} (hw : SameW [
 /-- the three kinds of opcodes of the fragment -/
 inductive OpKind (K : RK) (op : String) : Prop
   | framed : framedOps.contains op = true → OpKind K op
-  | slot : K.ign = [] → (op = "loads" ∨ op = "stores") → OpKind K op
+  | slot : K.ign = [] → K.strict = false → (op = "loads" ∨ op = "stores") → OpKind K op
   | dyn : K.ign = [] → K.dyn = true → (op = "vloads" ∨ op = "vstores") → OpKind K op
 
 theorem primSigK_cases {K : RK} {op : String} {k p : Nat} (h : primSigK K op = some (k, p)) :
@@ -85,16 +85,22 @@ theorem primSigK_cases {K : RK} {op : String} {k p : Nat} (h : primSigK K op = s
     · rename_i hd
       simp only [Bool.and_eq_true, Bool.or_eq_true, beq_iff_eq] at hd
       exact ⟨h, .dyn hI' hd.1 hd.2⟩
-    · unfold primSigR at h
-      split at h
-      · rename_i hop
-        simp only [Bool.or_eq_true, beq_iff_eq] at hop
-        refine ⟨h, ?_⟩
-        rcases hop with (hop | hop) | hop
-        · exact .framed hop
-        · exact .slot hI' (.inl hop)
-        · exact .slot hI' (.inr hop)
-      · cases h
+    · split at h
+      · split at h
+        · rename_i hop; exact ⟨h, .framed hop⟩
+        · cases h
+      · rename_i hstr
+        have hstr' : K.strict = false := by simpa using hstr
+        unfold primSigR at h
+        split at h
+        · rename_i hop
+          simp only [Bool.or_eq_true, beq_iff_eq] at hop
+          refine ⟨h, ?_⟩
+          rcases hop with (hop | hop) | hop
+          · exact .framed hop
+          · exact .slot hI' hstr' (.inl hop)
+          · exact .slot hI' hstr' (.inr hop)
+        · cases h
   · split at h
     · rename_i hop; exact ⟨h, .framed hop⟩
     · cases h
@@ -116,7 +122,7 @@ theorem execPrim_ign {K : RK} {op : String} {k p : Nat} (h : primSigK K op = som
   intro s hs
   cases (primSigK_cases h).2 with
   | framed hf => rw [framed_scratch hf cx imms hA]
-  | slot hI _ => rw [hI] at hs; cases hs
+  | slot hI _ _ => rw [hI] at hs; cases hs
   | dyn hI _ _ => rw [hI] at hs; cases hs
 
 /-! closed forms of the run-time addressed slot opcodes -/
